@@ -11,6 +11,7 @@ Inductive tev :=
 | TAdd (id : N) (ok : bool)                      (* the worker called batchingState.Add/Rm for item id; its result *)
 | TCommit (p : pres)                             (* the worker called batchingState.Commit; which datastore write batch failed *)
 | TDirect (id : N) (o : wop) (p : pres) (ok : bool)  (* LogPin/LogUnpin without batching and its result *)
+| TReject (id : N) (o : wop)                     (* LogPin refused the operation with an error other than a full queue: it cannot be serialised *)
 | TNoAge                                         (* batch non-empty, more than 4 x MaxBatchAge waited, no commit attempted *)
 | TStuck.                                        (* an accepted, queued operation was not taken by the worker (watchdog) *)
 
@@ -26,6 +27,9 @@ Record h1 := mk_h1 { h_batching : bool; h_nofire : bool; h_qcap : N; h_size : N;
 
 (* ------------------------------------------------------------------ replay on the (timed) model *)
 Record rst := mk_rst { r_b : tbst item; r_l : lrep; r_calls : list tcall; r_bad : bool }.
+
+(* a pin whose bytes do not exist (the harness writes the value 0): api.Pin.ProtoMarshal fails, dsstate.Add can never store it *)
+Definition is_bad (o : wop) : bool := match o with WPin _ 0 => true | _ => false end.
 
 Definition hd_id (q : list item) : option N := match q with (i, _) :: _ => Some i | [] => None end.
 Definition hd_op (q : list item) : option wop := match q with (_, o) :: _ => Some o | [] => None end.
@@ -43,7 +47,10 @@ Definition replay_step (c : tcfg) (nofire : bool) (slack : N) (s : rst) (te : N 
   match e with
   | TEnq id o ok =>
       let room := N.of_nat (length (queue b)) <? qcap (tc c) in
-      mk_rst (tstep c tb (Ev (Enq (id, o)))) (r_l s) (r_calls s) (r_bad s || negb (Bool.eqb room ok))
+      (* the repaired LogPin refuses what cannot be serialised before it looks at the queue (TReject) *)
+      mk_rst (tstep c tb (Ev (Enq (id, o)))) (r_l s) (r_calls s) (r_bad s || negb (Bool.eqb room ok) || is_bad o)
+  | TReject id o =>
+      mk_rst (tstep c tb (Ev (Reject (id, o)))) (r_l s) (r_calls s) (r_bad s || negb (is_bad o))
   | TAdd id ok =>
       match pc b, blocked b, queue b with
       | PIdle, false, (i, o) :: _ =>
@@ -70,7 +77,7 @@ Definition replay_step (c : tcfg) (nofire : bool) (slack : N) (s : rst) (te : N 
   | TDirect id o p ok =>
       let '(l', hs, okm) := direct_op (r_l s) o p in
       mk_rst tb l' (r_calls s ++ map tracker_call hs)
-             (r_bad s || negb (Bool.eqb ok okm) || negb (pres_possible (r_l s) (delta_add_op (l_st (r_l s)) ([], []) o) p))
+             (r_bad s || is_bad o || negb (Bool.eqb ok okm) || negb (pres_possible (r_l s) (delta_add_op (l_st (r_l s)) ([], []) o) p))
   | TNoAge =>
       mk_rst tb (r_l s) (r_calls s)
              (r_bad s || (negb (blocked b) && negb nofire && (t_active (tm b) || t_chan (tm b) || match pc b with PCommit => true | PIdle => false end)))
@@ -91,7 +98,7 @@ Definition tcall_eqb (a b : tcall) : bool :=
   | _, _ => false end.
 Definition has_stuck (t : list (N * tev)) : bool := existsb (fun e => match snd e with TStuck => true | _ => false end) t.
 
-Definition h1_cfg (fixed : bool) (h : h1) : tcfg := mk_tcfg (mk_bcfg (h_qcap h) (h_size h) fixed) (h_age h) false.
+Definition h1_cfg (fixed : bool) (h : h1) : tcfg := mk_tcfg (mk_bcfg (h_qcap h) (h_size h) fixed fixed) (h_age h) false.
 
 Definition model_eqb (fixed : bool) (h : h1) : bool :=
   let s := replay (h1_cfg fixed h) (h_nofire h) (h_slack h) (h_trace h) in
@@ -141,6 +148,9 @@ Definition acc_step (qcap maxsize : N) (a : acc) (e : tev) : acc :=
       mk_acc (a_wait a) (a_refused a) (a_cnt a) (a_expect a) (a_pend a) (if ok then a_done a ++ [[o]] else a_done a)
              (if ok then a_undet a else op_key o :: a_undet a)
              (e_order a) (e_refuse a) (e_size a) (e_age a) (e_stuck a)
+  | TReject id o =>      (* refused with an error: must have no effect; legitimate only for an operation that cannot be stored *)
+      mk_acc (a_wait a) (id :: a_refused a) (a_cnt a) (a_expect a) (a_pend a) (a_done a) (a_undet a)
+             (e_order a) (e_refuse a || negb (is_bad o)) (e_size a) (e_age a) (e_stuck a)
   | TNoAge => mk_acc (a_wait a) (a_refused a) (a_cnt a) (a_expect a) (a_pend a) (a_done a) (a_undet a)
                      (e_order a) (e_refuse a) (e_size a) true (e_stuck a)
   | TStuck => mk_acc (a_wait a) (a_refused a) (a_cnt a) (a_expect a) (a_pend a) (a_done a) (a_undet a)
@@ -210,6 +220,14 @@ Definition never_seen : N := 1125899906842624.
 Definition late_ops (h : h1) : list (N * N) :=
   if 0 <? h_slack h then filter (fun av => (snd av <? never_seen) && (fst av + h_age h + h_slack h <? snd av)) (h_lat h) else [].
 
+(* an operation that can never take effect was accepted (LogPin returned nil): "a pin accepted on a peer takes effect on
+   that peer" cannot hold for it *)
+Definition accepted_bad (h : h1) : bool :=
+  existsb (fun e => match snd e with
+                    | TEnq _ o true => is_bad o
+                    | TDirect _ o _ true => is_bad o
+                    | _ => false end) (h_trace h).
+
 Definition spec_codes (h : h1) : list (N * N) :=
   let a := account h in
   let undet := a_undet a ++ map op_key (a_pend a) in
@@ -223,7 +241,7 @@ Definition spec_codes (h : h1) : list (N * N) :=
   (if e_size a || a_expect a then [(12, 0)] else []) ++
   (if e_age a || match late_ops h with [] => false | _ => true end then [(13, 0)] else []) ++
   (if e_stuck a then [(14, 0)] else []) ++
-  (match bad15 with [] => [] | _ => [(15, tag_for h bad15)] end) ++
+  (match bad15 with [] => if accepted_bad h then [(15, 0)] else [] | _ => [(15, if accepted_bad h then 0 else tag_for h bad15)] end) ++
   (match bad16 with [] => [] | _ => [(16, tag_for h bad16)] end).
 
 Definition bcase := (N * h1)%type.
